@@ -10,7 +10,8 @@ PROP = {
     "streams": [{"name": "conc", "shards": 10}],
     "rule": "conc: rounds over N in {2,4,8,16,32} goroutines x GOMAXPROCS in {1,2,4,16} (quick: 60 rounds, thorough: 500), each "
             "sharing ONE engine (custom filter/tag/block registered, include cache filled, strict variables in every 5th "
-            "round), ONE set of parsed templates (36 fixed templates covering every standard tag and all 48 standard "
+            "round, custom delimiters << >> <% %> with every source respelled in every 3rd round; before the shared phase a "
+            "configured engine that has not parsed anything yet is handed to all goroutines, which start by parsing), ONE set of parsed templates (36 fixed templates covering every standard tag and all 48 standard "
             "filters, error paths included, + 12 random loop/cycle templates) and ONE bindings map (scalars, caller-owned "
             "slices and maps, typed slice, MapSlice, range, pointer, struct, drops, 3 random values); every goroutine "
             "renders every shared template through Render/RenderString/FRender in lock step, then a random mix of "
